@@ -57,4 +57,23 @@ var propTable = map[string]*propSpec{
 			"tables (allocTable, newStrTable, releaseTable) were confirmed by reading",
 		},
 	},
+	"C09": {
+		ID:    "C09",
+		Rules: []string{"R-HANDOFF", "R-LOCKSET", "R-GO", "R-KILL"},
+		Explanation: "Decides the protocol-shape content of 'coroutines: one thread at a time, control always comes back, no goroutine left behind': " +
+			"(R-HANDOFF) after a hand-off a thread only blocks on its own channel or unlocks; (R-LOCKSET) thread status/caller/closeErr are written under the thread's mutex, each status constant only by the functions owning that transition, mutexes are taken receiver-first, no Lua code can run under a thread mutex, the finaliser pool's lists are touched only under its mutex, and Lua-callable functions pass their own thread as the caller of Resume/Close; " +
+			"(R-GO) the only go statement is Thread.Start's and its goroutine always ends through t.end; (R-KILL c) the chain forwarding a termination from a coroutine to its resumer is intact.",
+		NotDecided: "exact value transfer through resume/yield, the full status legality table, deadlock freedom and race freedom under every schedule (the race detector is a dynamic tool); only the structural preconditions are decided.",
+		Assumptions: []string{
+			"lockset analysis is intraprocedural on the SSA CFG (must-held at joins); helper functions that lock on behalf of a caller would need a summary (none today)",
+			"the status-writer table (who may store which status) was confirmed by reading",
+		},
+	},
+	"C18": {
+		ID:    "C18",
+		Rules: []string{"R-FINALIZE", "R-LOCKSET"},
+		Explanation: "Decides the ordering/ownership content of 'finalisers and resource release run exactly once, in order, inside their context': finalise-extraction precedes release-extraction in PopContext, runPendingFinalizers and Runtime.Close; extracted releases always reach releaseResources and never depend on the context status; CallContext runs an isolated context's finalisers before popping it; ClonePool hands out an entry for finalising/release only under the 'not yet' flag test and marks it in the same step; its lists are touched only under its mutex (the Go finaliser runs on another goroutine).",
+		NotDecided: "exactly-once over histories that involve Go's garbage collector (which objects become unreachable when), reverse marking order (sort key values), and that a value is never finalised while still reachable.",
+		Assumptions: []string{"the default pool in every build configuration is one of the two analysed implementations (ClonePool; UnsafePool is selected only by a build tag and is out of the claim)"},
+	},
 }
